@@ -38,11 +38,16 @@ Cuts(st, timeout) == IF Len(st.reqs) >= st.cap /\ st.cap > 0 THEN 0..Boundary(Dr
 Index(q, t) == IF \E i \in 1..Len(q) : q[i].tid = t THEN CHOOSE i \in 1..Len(q) : q[i].tid = t ELSE NoHit
 Without(q, i) == [j \in 1..(Len(q) - 1) |-> IF j < i THEN q[j] ELSE q[j + 1]]
 
-\* recv_from with a response / error <<t, from>> (or nothing: t = -1): compaction first, then the attribution rule
-Recv(st0, t, from, timeout, k) ==
+\* recv_from: compaction first.  Nothing read, bytes that are no message, a datagram from port 0: nothing is handed on.  A REQUEST
+\* is handed on whatever transaction id it carries and touches no in-flight request.  A response / error <<t, from>>: the
+\* attribution rule.
+Answers(kind) == kind \in {"resp", "err"}
+Recv(st0, t, from, timeout, k, kind) ==
   LET st == Cleanup(st0, timeout, k)
       i == IF t < 0 THEN NoHit ELSE Index(st.reqs, t)
-  IN IF i = NoHit \/ st.reqs[i].to # from THEN [st |-> st, handed |-> FALSE]
+  IN IF from = "port0" \/ kind \in {"none", "junk"} THEN [st |-> st, handed |-> FALSE]
+     ELSE IF kind = "req" THEN [st |-> st, handed |-> TRUE]
+     ELSE IF i = NoHit \/ st.reqs[i].to # from THEN [st |-> st, handed |-> FALSE]
      ELSE [st |-> [st EXCEPT !.reqs = Without(st.reqs, i)], handed |-> ~Expired(st.reqs[i], st, timeout)]
 
 Advance(st, ms) == [st EXCEPT !.now = st.now + ms]
